@@ -135,6 +135,33 @@ def candidates(src, func):
                     txt = seg(a, b)
                     if "\n" not in txt:
                         muts.append((a, b, f"({txt}) + 1", f"L{node.lineno}: slice {name} bound {txt} -> +1"))
+    # statement-level mutants: drop a simple assignment / augmented assignment / expression statement (replace by `pass`),
+    # and swap the first two positional arguments of a call when both are plain names
+    lines = src.splitlines(keepends=True)
+    for node in ast.walk(target):
+        if getattr(node, "lineno", doc_end + 1) <= doc_end:
+            continue
+        lost_update = (isinstance(node, ast.AugAssign)
+                       or (isinstance(node, ast.Assign) and all(isinstance(x, (ast.Subscript, ast.Attribute)) for x in node.targets))
+                       or (isinstance(node, ast.Expr) and isinstance(node.value, ast.Call)))
+        if lost_update:
+            if node.lineno == node.end_lineno or True:
+                a = off[node.lineno - 1] + node.col_offset
+                b = off[node.end_lineno - 1] + node.end_col_offset
+                txt = src[a:b]
+                if "logger" in txt or "print(" in txt:
+                    continue
+                # only statements that are not the single statement of a block (keeps the code compilable either way)
+                muts.append((a, b, "pass", f"L{node.lineno}: delete statement `{txt.splitlines()[0][:50]}`"))
+        if isinstance(node, ast.Call) and len(node.args) >= 2 and all(isinstance(x, ast.Name) for x in node.args[:2]) \
+                and node.args[0].id != node.args[1].id and node.args[0].lineno == node.args[1].lineno:
+            a0 = off[node.args[0].lineno - 1] + node.args[0].col_offset
+            b0 = off[node.args[0].end_lineno - 1] + node.args[0].end_col_offset
+            a1 = off[node.args[1].lineno - 1] + node.args[1].col_offset
+            b1 = off[node.args[1].end_lineno - 1] + node.args[1].end_col_offset
+            txt = src[a0:b1]
+            swapped = src[a1:b1] + src[b0:a1] + src[a0:b0]
+            muts.append((a0, b1, swapped, f"L{node.lineno}: swap arguments `{txt[:50]}`"))
     muts = sorted(set(muts))
     return muts
 
@@ -165,6 +192,12 @@ def main():
         path = os.path.join(REPO, item["file"])
         src = open(path).read()
         cands = candidates(src, item["func"])
+        if os.environ.get("MUT_FILTER"):
+            import re
+
+            cands = [c for c in cands if re.search(os.environ["MUT_FILTER"], c[3])]
+        if not cands:
+            continue
         rng = random.Random(f"{seed}:{item['file']}:{item['func']}")
         pick = rng.sample(range(len(cands)), min(item.get("n", 4), len(cands)))
         for i in sorted(pick):
